@@ -4,6 +4,10 @@
 
 use crate::common::{Id, Node, RoutingTable};
 
+pub use crate::common::messages::*;
+pub use crate::common::SignedAnnounce;
+pub use crate::core::server::{Server, VerifServerDump};
+
 /// Named constants of the crate, as (name, value) pairs; durations in milliseconds.
 pub fn consts() -> Vec<(&'static str, u128)> {
     vec![
